@@ -174,6 +174,7 @@ func main() {
 		if len(files) == 0 && err == nil {
 			inconc = append(inconc, fmt.Sprintf("unit %s: no result file written", u.Name))
 		}
+		kept := 0
 		for _, f := range files {
 			b, _ := os.ReadFile(f)
 			var r rtResult
@@ -191,6 +192,12 @@ func main() {
 			}
 			r.Extra = withUnit(r.Extra, u.Name)
 			results = append(results, r)
+			kept++
+		}
+		if kept == 0 && len(files) > 0 && err == nil && *replay == "" {
+			// a shared harness whose results all belong to other properties: this
+			// unit would silently contribute nothing
+			inconc = append(inconc, fmt.Sprintf("unit %s: wrote %d result file(s), none of them for %s", u.Name, len(files), p.ID))
 		}
 	}
 
